@@ -5,7 +5,7 @@ CHECK = dict(
     technique='exhaustive enumeration of all short inputs over class-complete byte/character alphabets plus pumping families (2^k nesting depth / declared sizes), executed on the real loaders and converters under sanitizers, an allocation meter and worker/child supervision',
     level_text='MsgPack: every byte string of length <= 3 (thorough 4; the length-4 words into 3 of the 12 targets (int32, vector<int>, class)) over a 47-symbol alphabet holding every format-code class and length-field boundary, into 12 targets (scalars, string, sequences, byte container, maps, class, '
                'time_point, nested vector, tuple), memory and stream, Throw and Skip policies. CSV/JSON/XML: every string of length <= 5/4/4 (thorough 6/5/5) over their structural alphabets into row/scalar/array/class/map targets. '
-               'Converters: every string of length <= 3 (thorough 4) over a 20-symbol numeric/ISO-8601 alphabet into 17 Convert::To targets in char, char16_t and char32_t. Pumping: 11 families with depth/size 2^k, k <= 16 (thorough 20). '
+               'Converters: every string of length <= 3 (thorough 4) over a 20-symbol numeric/ISO-8601 alphabet into 17 Convert::To targets in char, char16_t and char32_t, each once as a std::basic_string and once as a string_view over an exact-size heap block. Pumping: 11 families with depth/size 2^k, k <= 16 (thorough 20). '
                'Stream refill boundary: 21 MsgPack item forms (every multi-byte scalar, 8/16/32-bit length fields, timestamps, ext; four of them declare 2113 bytes/elements that are not there) placed at 20 offsets around the end of the 256-byte reader cache inside a 3-element array, cut at every byte or with one byte set to ff/00, into 8 tuple targets (typed and mismatching), memory and stream, both policies. '
                'UTF payloads: every byte string of length <= 3 (thorough 4) over a 16-symbol UTF-8 class alphabet (tails, over-long/2/3/4-octet leads, ED, F4/F5, the retired 5/6-octet leads, FE/FF) as the string value of MsgPack/JSON/CSV/XML documents into char16_t/char32_t/wchar_t/char targets and a map key, memory and stream, both UTF error policies, and straight into Convert::To / TryTo / Transcode from exact-size heap buffers (UTF-16 unit strings likewise). '
                'Shape mismatch: arrays / objects of 1..3 elements of every shape (object, empty object, array, empty array, null, number, string, bool) into 8 container-of-class / container-of-container / map targets, MsgPack/JSON/XML, memory and stream, both policies. '
